@@ -82,7 +82,13 @@ impl Decoder for StreamingDecoder {
                 let mut split = line.splitn(2, |&c| c == b':');
 
                 if let Some(name) = split.next() {
-                    if name.eq_ignore_ascii_case(b"content-length") || name.starts_with(b"l") {
+                    // header names are case-insensitive and may be followed by whitespace before the colon,
+                    // `l` is the compact form of Content-Length
+                    let name = name.trim_ascii();
+
+                    if name.eq_ignore_ascii_case(b"content-length")
+                        || name.eq_ignore_ascii_case(b"l")
+                    {
                         let value = split.next().ok_or(Error::Malformed)?;
                         let value = from_utf8(value)?;
 
